@@ -19,7 +19,8 @@ RULE_TEXT = ("C06-R: per loop-body path of Interface::run - Incomplete: no repor
              " C06-C03V/C03N: the conversion rules and the argument-vector rule of C03 (no wrapping or truncating conversion, no discarded push)."
              " C06-T/C06-D: on every witness interface the emitted trie accepts exactly the declared spellings and the dispatcher has one arm per declaration (rules C01-T/D) - an undefined header is a fault. C06-F: `no call` only for an empty message."
              " C06-N: every recogniser that can itself run across a newline (take_while over a class containing 10, slice by a data value) delivers Value::String or Value::Arbitrary - a complete message is never answered Incomplete."
-             " C06-C01M: a mnemonic that no key equals is undefined - the whole-name lookup rule C01-M.")
+             " C06-C01M: a mnemonic that no key equals is undefined - the whole-name lookup rule C01-M."
+             " C06-K: the buffer discipline of process (K1-K8): a response buffer per message, bytes unchanged.")
 
 PROCESS = "microscpi::interface::Interface::process"
 EXECUTE = runsum.EXECUTE
